@@ -20,3 +20,4 @@ def run(ck):
     traps.r14_bottom_clamp_siblings(ck, P)
     traps.r15_edge_offset_in_wide_type(ck, P)
     traps.r16_full_destination_box_in_trap_space(ck, P)
+    traps.r17_extents_follow_the_lines(ck, P)
